@@ -1,6 +1,6 @@
 (* C17 — long and deeply nested programs convert without exhausting recursion (the part carried by theorems). *)
 From Coq Require Import String List ZArith Bool Arith.
-From OL Require Import PyAst Namespace Lower KSem KSim Depth DepthElif.
+From OL Require Import PyAst Namespace Lower KSem KSim Depth DepthElif GuardNest.
 Import ListNotations.
 
 (* expr_wrapper = list: a list display is one level deeper than its deepest element, however many elements it has *)
@@ -58,6 +58,22 @@ Theorem C17_elif_chain_height_ifexp : forall n,
   exists e, lower_module cfg_list top_symtab (elif_chain n) = inl e /\ height e = stmt_nest n + 1.
 Proof. exact elif_chain_height_ifexp. Qed.
 Print Assumptions C17_elif_chain_height_ifexp.
+
+(* the mechanism of the known finding K-guard-clause-nesting, for EVERY statement lowering L, context and block: a statement
+   that can take an early exit puts the lowering of the whole REST of the block at least one level below itself (list wrapper),
+   so k guard clauses in one block nest the output k levels deep *)
+Theorem C17_each_guard_adds_a_level : forall L c p br i s rest es rs bumps flag,
+  rest <> [] -> rs <> [] -> L c (i :: br :: p) s = inl es -> is_interrupt s = false ->
+  lower_block cfg_list L c p br (S i) rest = inl rs ->
+  guard_of c = (bumps, Some flag) -> bumps s = true ->
+  exists out, lower_block cfg_list L c p br i (s :: rest) = inl out /\ S (heights rs) <= heights out.
+Proof. exact each_guard_adds_a_level. Qed.
+Print Assumptions C17_each_guard_adds_a_level.
+
+(* the family of the finding on the converter model: k guards `if c(1): break` and one statement in a while body: height 2k + 5 *)
+Example C17_guards_height_grows :
+  map guards_height [1; 2; 3; 4; 10; 30] = [Some 7; Some 9; Some 11; Some 13; Some 25; Some 65].
+Proof. exact guards_height_grows. Qed.
 
 Example C17_elif_nonvacuous : exists e, lower_module cfg_short_list top_symtab (elif_chain 30) = inl e /\ height e = 6.
 Proof. eexists. split; [vm_compute; reflexivity|vm_compute; reflexivity]. Qed.
